@@ -12,8 +12,40 @@ From AV Require Import model.Proto model.Ir.
 Import ListNotations.
 Open Scope Z_scope.
 
-(* Allocator{Input, Output, Format}; Format is modelled as prefix ++ "%d" *)
-Record alloc_cfg := mkCfg { cfg_in : list N; cfg_out : list N; cfg_prefix : list N }.
+(* Allocator.Format: "must accept one integer value".  Modelled is what fmt.Sprintf(Format, n)
+   does for one non-negative int argument on the following format language: literal text
+   (with %% for a percent sign) around exactly one verb among %d %v %x %X %o %b, optionally
+   with the zero flag and/or a width (%02d, %3x, %04b): the number in the verb's base, padded on
+   the left with zeros or spaces up to the width.  Other formats are outside the model. *)
+Inductive verb := VDec | VHex | VHexUp | VOct | VBin.
+Record tformat := mkFmt {
+  f_prefix : list N; f_verb : verb; f_zero : bool; f_width : nat; f_suffix : list N }.
+
+Definition upcase (c : N) : N := if (97 <=? c)%N && (c <=? 122)%N then (c - 32)%N else c.
+
+Definition render_digits (v : verb) (n : N) : list N :=
+  match v with
+  | VDec => print_decN n
+  | VHex => print_hexN n
+  | VHexUp => map upcase (print_hexN n)
+  | VOct => print_base_fuel 8 (S (N.to_nat (N.size n))) n []
+  | VBin => print_binN n
+  end.
+
+Definition pad (zero : bool) (w : nat) (s : list N) : list N :=
+  repeat (if zero then 48%N else 32%N) (w - length s) ++ s.
+
+(* fmt.Sprintf(format, n) *)
+Definition render_fmt (f : tformat) (n : nat) : list N :=
+  f_prefix f ++ pad (f_zero f) (f_width f) (render_digits (f_verb f) (N.of_nat n)) ++ f_suffix f.
+
+(* Allocator{Input, Output, Format} *)
+Record alloc_cfg := mkCfgF { cfg_in : list N; cfg_out : list N; cfg_fmt : tformat }.
+
+(* the common case Format = prefix ++ "%d" *)
+Definition simple_fmt (pre : list N) : tformat := mkFmt pre VDec false 0 [].
+Definition mkCfg (i o pre : list N) : alloc_cfg := mkCfgF i o (simple_fmt pre).
+Definition cfg_prefix (cfg : alloc_cfg) : list N := f_prefix (cfg_fmt cfg).
 
 Definition out_index (i : instr) : Z := oindex (iout i).
 Definition in_indexes (i : instr) : list Z := map oindex (inputs (iopn i)).
@@ -132,8 +164,8 @@ Definition lir_instr (l : Z) (i : instr) : Z :=
   fold_left (fun l x => if x =? 0 then out_index i else l) (in_indexes i) l.
 Definition lastinputread (p : iprogram) : Z := fold_left lir_instr p 0.
 
-(* fmt.Sprintf(prefix + "%d", n) *)
-Definition tmpname (cfg : alloc_cfg) (n : nat) : list N := cfg_prefix cfg ++ print_decN (N.of_nat n).
+(* fmt.Sprintf(a.Format, n) *)
+Definition tmpname (cfg : alloc_cfg) (n : nat) : list N := render_fmt (cfg_fmt cfg) n.
 
 (* ---- naming loop ---- *)
 Record naming := mkNaming {
